@@ -35,6 +35,14 @@ func c02Build(c c02Case) (doc string, row string, injected bool, ok bool) {
 		if !applicable {
 			return "", "", false, false
 		}
+		if c.Inj.Class == model.InjJump {
+			// the line nested too deep is the offending one; find it as the single line that differs
+			for i := range nl {
+				if i < len(lines) && nl[i].Raw() != lines[i].Raw() {
+					r = nl[i].Raw()
+				}
+			}
+		}
 		return model.Join(nl), r, true, true
 	}
 	return model.Join(lines), "", false, true
